@@ -897,10 +897,10 @@ func isErrorDoc(body []byte) bool {
 	if json.Unmarshal(body, &m) != nil {
 		return false
 	}
+	// a JSON object that says it is an error and says why; further members (a time stamp, a status code, ...) are welcome
 	t, _ := m["Type"].(string)
 	_, hasMsg := m["Message"].(string)
-	_, hasTime := m["Time"].(string)
-	return t == "ERROR" && hasMsg && hasTime && len(m) == 3
+	return t == "ERROR" && hasMsg
 }
 
 func isSuccessDoc(body []byte) bool {
